@@ -29,14 +29,48 @@ def run(tier):
     wd = workdir('C09')
     mc = [{'name': 'DataFraming (framing layer shared with C05)', 'module': 'MC_DataFraming',
            'cfg': flow.write_cfg(wd, 'df.cfg', open(__file__.replace('c09.py', 'c05.py')).read().split('MC_CFG = """')[1].split('"""')[0] % (4 if tier == 'quick' else 6))}]
+    SL_CFG = """SPECIFICATION Spec
+CONSTANTS
+  Alphabet = {46, 13, 10, 97}
+  MaxLen = %d
+  Trailers <- TrailersDef
+  Limit = %d
+  KF_CountReads = %s
+INVARIANT C09_VerdictIsTheMessages
+INVARIANT C09_ConsumedToTheEnd
+INVARIANT C05_Content
+CHECK_DEADLOCK FALSE
+"""
+    for ml, lim in ((4, 3), (4, 5)) + (((5, 4), (5, 6)) if tier != 'quick' else ()):
+        mc.append({'name': 'MC_SizeLimit: every message up to %d bytes, limit %d, every trailer, every segmentation: the verdict is the message\'s' % (ml, lim),
+                   'module': 'MC_SizeLimit', 'cfg': flow.write_cfg(wd, 'sl_%d_%d.cfg' % (ml, lim), SL_CFG % (ml, lim, 'FALSE'))})
+    mc.append({'name': 'deviation KF_CountReads (D15 as found): TLC must find the verdict that depends on the segmentation', 'module': 'MC_SizeLimit',
+               'cfg': flow.write_cfg(wd, 'sl_kf.cfg', SL_CFG % (4, 3, 'TRUE')), 'expect_violation': ['C09_VerdictIsTheMessages', 'C09_ConsumedToTheEnd']})
+
+    def canary_verdict(traces):
+        for tr in traces:
+            if tr['cls'] == 'sizelimit-over' and tr['ev'][-1]['t'] == 'toobig':
+                c = copy.deepcopy(tr)
+                c['limit'] = c['limit'] + 50
+                return c, 'a message within the limit refused as too big'
+
+    def canary_rest(traces):
+        for tr in traces:
+            if tr['ev'][-1]['t'] == 'toobig' and tr['ev'][-1]['rest']:
+                c = copy.deepcopy(tr)
+                c['ev'][-1]['rest'] = c['ev'][-1]['rest'][1:]
+                return c, 'after a refused message the command parser is handed something else than what followed the end-of-data line'
     return flow.standard(
         'C09', tier, mc, 'c09', 'Trace_SmtpServer', 'Trace_SmtpServer.cfg', [canary_diff, canary_smuggle],
+        extras=[{'driver': 'c09z', 'module': 'Trace_SizeLimit', 'cfg': 'Trace_SizeLimit.cfg', 'canaries': [canary_verdict, canary_rest]}],
         level='model_checking',
         rule='session byte streams (1-3 transactions; bodies: plain, command-looking lines and lone dots, bare-LF, empty, over the '
              'SIZE limit with command-looking content; RSET/NOOP/unknown in between) each delivered unit-by-unit (reference, judged '
              'by the C07 observer), byte-by-byte, in one burst, randomly cut, and cut at/just before/just after every unit '
              'boundary; every run is projected to its callbacks-with-arguments, replies and hand-offs and TLC requires all '
-             'projections of a stream to be equal; non-trivial = stream with a body that is empty, oversize or contains '
+             'projections of a stream to be equal; SIZE limit: the real DataReader on the wire form of every message up to 3 (thorough 4) '
+             'bytes over {., CR, LF, a} and a few longer ones, limits around the message size, every trailer, every segmentation, '
+             'with and without the first segment already buffered when DATA is accepted; non-trivial = stream with a body that is empty, oversize or contains '
              'command-looking lines',
         trigger=lambda tr: tr['cls'] != 'plain',
         assumptions=['the reference run is the unit-by-unit delivery; session-level order is C07'],
